@@ -274,6 +274,86 @@ RepeatAcc(acc, m, trss) ==
 Repeat(m, trss) == IF ~HasAttr(m, 3, 1) THEN FailMesh ELSE RepeatAcc(EmptyMesh(m.topo), m, trss)
 
 (***************************************************************************)
+(* Attribute-transforming operations whose results leave the lattice       *)
+(* (normalise, normals, Laplacian smoothing): the frame must be exact, the *)
+(* target attribute is judged by an integer predicate with an explicit     *)
+(* rounding band (projection error <= 1/2 unit of 1/Q per component).      *)
+(***************************************************************************)
+AttrFrameOk(res, src, ar, id) ==
+    /\ res.topo = src.topo /\ res.idx = src.idx /\ res.mats = src.mats
+    /\ WithoutAttr(res.attrs, ar, id) = WithoutAttr(src.attrs, ar, id)
+    /\ HasAttr(res, ar, id) /\ Len(AttrData(res, ar, id)) = AttrLen(src)
+
+Abs(x) == IF x < 0 THEN 0 - x ELSE x
+Norm1(v) == Abs(v[1]) + Abs(v[2]) + Abs(v[3])
+Len2(v) == Dot(v, v)
+HasSqrt(x) == \E r \in 0..200 : r * r = x
+ISqrt(x) == CHOOSE r \in 0..200 : r * r = x
+
+\* n (scaled unit vector as observed) points along the integer vector S
+Parallel(n, S) ==
+    LET x == Cross(n, S) IN
+    /\ Abs(x[1]) <= Norm1(S) /\ Abs(x[2]) <= Norm1(S) /\ Abs(x[3]) <= Norm1(S)
+    /\ Dot(n, S) > 0
+    /\ Len2(n) >= (Q - 4) * (Q - 4) /\ Len2(n) <= (Q + 4) * (Q + 4)
+
+MaxLen2(d) == Max({Len2(Unscale(d[i])) : i \in DOMAIN d})
+NormalizeJudgeable(m, id) ==
+    HasAttr(m, 3, id) =>
+        LET d == AttrData(m, 3, id) IN
+        d # <<>> /\ OnIntLattice(d) /\ (\A i \in DOMAIN d : \A c \in 1..3 : Abs(d[i][c]) <= 64 * Q)
+        /\ MaxLen2(d) > 0 /\ HasSqrt(MaxLen2(d))
+NormalizeOk(m, id, data) ==
+    LET d == AttrData(m, 3, id)
+        L == ISqrt(MaxLen2(d))
+    IN \A i \in DOMAIN d : \A c \in 1..3 : Abs(data[i][c] * L - Q * Unscale(d[i])[c]) <= L
+
+TriCross(P, m, t) == LET v == Tri1(m, t) IN Cross(VSub(P[v[2]], P[v[1]]), VSub(P[v[3]], P[v[1]]))
+TrisOf(m, v) == {t \in 1..(Len(m.idx) \div 3) : \E c \in 1..3 : Tri1(m, t)[c] = v}
+NormalsJudgeable(m) ==
+    (m.topo = "triangle" /\ HasAttr(m, 3, 1)) =>
+        LET d == AttrData(m, 3, 1) IN OnIntLattice(d) /\ (\A i \in DOMAIN d : \A c \in 1..3 : Abs(d[i][c]) <= 16 * Q)
+FlatNormalsOk(m, data) ==      \* every vertex of a non-degenerate triangle carries the face normal of ONE of its triangles
+    LET P == [i \in DOMAIN AttrData(m, 3, 1) |-> Unscale(AttrData(m, 3, 1)[i])] IN
+    \A v \in DOMAIN P :
+        LET good == {t \in TrisOf(m, v) : TriCross(P, m, t) # <<0, 0, 0>>} IN
+        (good # {} /\ good = TrisOf(m, v)) => \E t \in good : Parallel(data[v], TriCross(P, m, t))
+RECURSIVE SumCross(_, _, _)
+SumCross(P, m, ts) ==
+    IF ts = {} THEN <<0, 0, 0>>
+    ELSE LET t == CHOOSE x \in ts : TRUE IN VAdd(TriCross(P, m, t), SumCross(P, m, ts \ {t}))
+\* a vertex used twice by one triangle receives that triangle's cross product twice; such
+\* index-degenerate triangles have a zero cross product, so the sum is unaffected
+SmoothNormalsOk(m, data) ==
+    LET P == [i \in DOMAIN AttrData(m, 3, 1) |-> Unscale(AttrData(m, 3, 1)[i])] IN
+    \A v \in DOMAIN P :
+        LET S == SumCross(P, m, TrisOf(m, v)) IN
+        IF S = <<0, 0, 0>> THEN data[v] = <<0, 0, 0>> ELSE Parallel(data[v], S)
+
+\* Laplacian smoothing, one iteration, factor 1, in place (Gauss-Seidel) in vertex order
+Neigh(m, v) == {u \in 1..AttrLen(m) : \E t \in 1..(Len(m.idx) \div 3) : \E i, j \in 1..3 :
+                    i # j /\ Tri1(m, t)[i] = v /\ Tri1(m, t)[j] = u}
+RECURSIVE SumVals(_, _)
+SumVals(vals, S) == IF S = {} THEN <<0, 0, 0>>
+                    ELSE LET u == CHOOSE x \in S : TRUE IN VAdd(vals[u], SumVals(vals, S \ {u}))
+RECURSIVE GaussSeidel(_, _, _)
+GaussSeidel(m, vals, v) ==
+    IF v > Len(vals) THEN vals
+    ELSE LET nb == Neigh(m, v) IN
+         IF nb = {} THEN GaussSeidel(m, vals, v + 1)
+         ELSE LET sm == SumVals(vals, nb) IN
+              GaussSeidel(m, [vals EXCEPT ![v] = [c \in 1..3 |-> sm[c] \div Cardinality(nb)]], v + 1)
+LaplacianJudgeable(m, id) ==
+    (m.topo = "triangle" /\ HasAttr(m, 3, id)) =>
+        (\A i \in DOMAIN AttrData(m, 3, id) : \A c \in 1..3 : Abs(AttrData(m, 3, id)[i][c]) <= 1024 * Q)
+RECURSIVE Sweeps(_, _, _)
+Sweeps(m, vals, k) == IF k = 0 THEN vals ELSE Sweeps(m, GaussSeidel(m, vals, 1), k - 1)
+LaplacianBand == 32     \* units of 1/Q per sweep: floor division against IEEE rounding, propagated through a sweep
+LaplacianOk(m, id, iters, data) ==
+    LET ref == Sweeps(m, AttrData(m, 3, id), iters) IN
+    \A v \in DOMAIN ref : Neigh(m, v) # {} => \A c \in 1..3 : Abs(data[v][c] - ref[v][c]) <= LaplacianBand * iters
+
+(***************************************************************************)
 (* Comparison classes (C03).                                               *)
 (***************************************************************************)
 EqExact(res, exp) == res.exact /\ Core(res) = Core(exp)
